@@ -159,4 +159,93 @@ theorem tampered_token_never_active (s : MState) (q : IntrospectReq) (hne : q.to
         | ok r' => exact hr r' hrv
         | error e => rw [hrv] at h; cases h
 
+/-! ### the introspection endpoint answers authenticated callers only -/
+
+/-- `NewIntrospectionRequest` is a pure function of the state … -/
+theorem introspect_endpoint_refines_pure (s : MState) (r : IntrospectEndpointReq) :
+    (step s (.introspectEndpoint r)).2.1 = introspectEndpointPure s.cfg s.now r s.ss := by
+  have hp := step_prog s (.introspectEndpoint r) (introspectEndpointProg s.cfg s.now r) rfl
+  rw [hp.2]
+  exact (run_introspectEndpointProg {} plain_default s.cfg s.now r { ss := s.ss }).2
+
+/-- … and never changes it. -/
+theorem introspect_endpoint_changes_nothing (s : MState) (r : IntrospectEndpointReq) :
+    (step s (.introspectEndpoint r)).1.ss = s.ss := by
+  have hp := step_prog s (.introspectEndpoint r) (introspectEndpointProg s.cfg s.now r) rfl
+  rw [hp.1]
+  exact (run_introspectEndpointProg {} plain_default s.cfg s.now r { ss := s.ss }).1
+
+/-- the caller proved who it is: a registered client with its secret, or a bearer token that is a
+    different string than the inspected token and is itself reported as an active ACCESS token -/
+def CallerAuthenticated (s : MState) (r : IntrospectEndpointReq) : Prop :=
+  match r.caller with
+  | .basic id secretOk => secretOk = true ∧ ∃ c ∈ s.ss.clients, c.id = id
+  | .bearer tok identical =>
+    identical = false ∧
+      ∃ x, introspectPure s.cfg s.now { token := tok, hint := .access, scopes := [] } s.ss.store = .active "access_token" x
+  | .anonymous => False
+
+/-- **The endpoint answers only authenticated callers**: whenever it says anything about the inspected
+    token (active with its data, or inactive) the caller was authenticated; everybody else gets
+    `request_unauthorized`. -/
+theorem introspect_endpoint_answers_only_authenticated (s : MState) (r : IntrospectEndpointReq) :
+    CallerAuthenticated s r ∨ (step s (.introspectEndpoint r)).2.1 = .err .request_unauthorized := by
+  rw [introspect_endpoint_refines_pure]
+  unfold introspectEndpointPure CallerAuthenticated
+  cases r.caller with
+  | bearer tok identical =>
+    simp only
+    by_cases hi : identical = true
+    · right; simp [hi]
+    · simp only [hi, Bool.false_eq_true, if_false]
+      cases hv : introspectPure s.cfg s.now { token := tok, hint := .access, scopes := [] } s.ss.store with
+      | active use x =>
+        simp only
+        by_cases hu : use = "access_token"
+        · left; exact ⟨by simpa using hi, x, by rw [hu]⟩
+        · right; simp [hu]
+      | _ => right; rfl
+  | basic id secretOk =>
+    simp only
+    cases hf : s.ss.clients.find? (fun c => c.id == id) with
+    | none => right; rfl
+    | some c =>
+      simp only
+      by_cases hs : secretOk = true
+      · left
+        exact ⟨hs, c, List.mem_of_find?_eq_some hf, by simpa using List.find?_some hf⟩
+      · right; simp [hs]
+  | anonymous => right; rfl
+
+/-- a refresh token (or a code, or anything that is not a live access token) is no caller credential -/
+theorem refresh_token_is_no_caller_credential (s : MState) (tok : Presented) (q : IntrospectReq) (x : Req)
+    (h : introspectPure s.cfg s.now { token := tok, hint := .access, scopes := [] } s.ss.store = .active "refresh_token" x) :
+    (step s (.introspectEndpoint { caller := .bearer tok false, q := q })).2.1 = .err .request_unauthorized := by
+  rw [introspect_endpoint_refines_pure]
+  unfold introspectEndpointPure
+  simp [h]
+
+/-- for an authenticated caller the endpoint reports exactly what `IntrospectToken` reports, and for an
+    inactive token nothing but "inactive" -/
+theorem introspect_endpoint_of_authenticated (s : MState) (r : IntrospectEndpointReq) (h : CallerAuthenticated s r) :
+    (step s (.introspectEndpoint r)).2.1 = inspectPure s.cfg s.now r.q s.ss.store := by
+  rw [introspect_endpoint_refines_pure]
+  unfold introspectEndpointPure
+  unfold CallerAuthenticated at h
+  cases hc : r.caller with
+  | bearer tok identical =>
+    rw [hc] at h
+    obtain ⟨hi, x, hx⟩ := h
+    simp [hi, hx]
+  | basic id secretOk =>
+    rw [hc] at h
+    obtain ⟨hs, c, hm, hid⟩ := h
+    simp only
+    cases hf : s.ss.clients.find? (fun c => c.id == id) with
+    | none =>
+      have := List.find?_eq_none.mp hf c hm
+      simp [hid] at this
+    | some c' => simp [hs]
+  | anonymous => rw [hc] at h; exact absurd h id
+
 end Fosite.Props.C09
